@@ -11,7 +11,7 @@ REQUIRED = {t: "oracle:C18.len==iter oracle:C18.index oracle:C18.label oracle:C1
 
 def plan(tier, seed):
     if tier == "quick":
-        return [{"kind": "c18", "shard": s, "n": 500} for s in range(3)]
+        return [{"kind": "c18", "shard": s, "n": 2500} for s in range(4)]
     return [{"kind": "c18", "shard": s, "n": 7000} for s in range(14)]
 
 
